@@ -189,6 +189,8 @@ func (s *Spec) emitTypeDecl(b *strings.Builder, t *Type, pkg string) {
 			}
 			if f.Embedded {
 				fmt.Fprintf(b, "\t%s%s\n", s.Expr(f.T, pkg), tag)
+			} else if f.Alias != "" && pkg == "" {
+				fmt.Fprintf(b, "\t%s %s%s\n", f.Name, f.Alias, tag)
 			} else {
 				fmt.Fprintf(b, "\t%s %s%s\n", f.Name, s.Expr(f.T, pkg), tag)
 			}
